@@ -15,11 +15,21 @@ Definition i_bfc : nat := tix "BusinessFunctionCode".
 
 (* tags whose round trip is proved *)
 Definition covered (i : nat) : bool :=
-  (i =? i_ss) || (i =? i_bfc) || (layout_ok (nth i tags tag_Amount) && guard_static (nth i tags tag_Amount)).
+  (i =? i_ss) || (i =? i_bfc) || layout_ok (nth i tags tag_Amount).
+
+(* the reader's minimum-length guard admits the text of this value (static for 48 tags; for the 8 tags whose
+   shortest canonical text is below the guard it is a condition on the value, which validity implies) *)
+Definition guard_admits_b (L : layout) (len : nat) : bool :=
+  match l_cmp L with CLt => l_guard L <=? len | CNe => len =? l_guard L end.
+Definition guard_ok (d : tagdesc) (v : tagval) : bool :=
+  guard_static d ||
+  (guard_admits_b (recover d) (length (format_text (recover d) (true && t_format_takes_options d) v)) &&
+   guard_admits_b (recover d) (length (format_text (recover d) (false && t_format_takes_options d) v))).
 
 (* the canonical values of a covered tag: its own marker, canonical elements, FAIM text *)
 Definition canonical_value (i : nat) (v : tagval) : bool :=
-  (if i =? i_ss then ss_canonical v else if i =? i_bfc then bfc_canonical v else canonical_tag (nth i tags tag_Amount) v) &&
+  (if i =? i_ss then ss_canonical v else if i =? i_bfc then bfc_canonical v
+   else canonical_tag (nth i tags tag_Amount) v && guard_ok (nth i tags tag_Amount) v) &&
   bytes_eqb (tv_marker v) (t_marker (nth i tags tag_Amount)) && values_plain v.
 
 Definition msg_covered (m : message) : Prop :=
@@ -62,7 +72,12 @@ Proof.
   - destruct (i =? i_bfc) eqn:Eb.
     + apply Nat.eqb_eq in Eb. subst i. rewrite bfc_is.
       apply (bfc_round_trip v variable Hv bfc_parse bfc_format bfc_options bfc_nelems).
-    + cbn [orb] in Hc. apply andb_true_iff in Hc as [Hl Hg]. apply (tag_roundtrip_static _ v variable Hl Hg Hv).
+    + cbn [orb] in Hc. apply andb_true_iff in Hv as [Hv Hg]. unfold guard_ok in Hg.
+      destruct (guard_static (nth i tags tag_Amount)) eqn:Egs; [apply (tag_roundtrip_static _ v variable Hc Egs Hv)|].
+      cbn [orb] in Hg. apply andb_true_iff in Hg as [Hg1 Hg2].
+      apply (tag_roundtrip _ v variable Hc Hv). unfold guard_admits, guard_admits_b in *.
+      destruct variable; destruct (l_cmp (recover (nth i tags tag_Amount)));
+        try (apply Nat.leb_le; assumption); try (apply Nat.eqb_eq; assumption).
 Qed.
 
 Lemma rune_count_marker l : is_marker_at l = true -> 6 <= rune_count l.
